@@ -278,6 +278,14 @@ impl ProtocolKernel {
         finished
     }
 
+    /// No stream, negotiation or validation is in progress for `peer` (it is unknown to the protocol or `Closed`).
+    pub fn peer_is_idle(&self, peer: &PeerId) -> bool {
+        match self.protocol.peers.get(peer) {
+            None => true,
+            Some(context) => matches!(context.state, super::PeerState::Closed { .. }),
+        }
+    }
+
     pub fn running_tasks(&self) -> usize {
         self.tasks.lock().len()
     }
